@@ -168,8 +168,16 @@ impl FlowGen {
                     let n = 2 + self.rng.below(2);
                     let first = self.int_expr(ctx, 0);
                     let mut rest = Vec::new();
+                    // comparison chains: neighbouring comparisons merge into one test
+                    // (`a < b <= c`), also next to arithmetic of higher precedence
+                    let cmp_chain = self.rng.chance(1, 4);
+                    if cmp_chain {
+                        self.feat("comparison-chain");
+                    }
                     for _ in 0..n {
-                        let op = if !ctx.ops.is_empty() && self.rng.chance(1, 4) {
+                        let op = if cmp_chain && self.rng.chance(3, 4) {
+                            self.rng.pick(&["<", "<=", ">", ">=", "==", "!=", "<", "=="]).to_string()
+                        } else if !ctx.ops.is_empty() && self.rng.chance(1, 4) {
                             self.rng.pick(&ctx.ops).clone()
                         } else {
                             self.rng.pick(&["+", "-", "*", "+", "*"]).to_string()
